@@ -12,6 +12,8 @@ var fmtLines = []string{
 	"##!<", "  ##!<", "##!+ i", "##!+i", "##!+   s  ", "##!^ p", "##!^   p q", "##!$ s",
 	"##!> define n v", "##!>  define   n   v", "##!> include inc", "##!>include  inc  --  a  b", "##!> include-except inc ex -- a b",
 	"##!=>", "  ##!=< n", "[A-Z]x", raHeader1, raHeader2,
+	// indentation made of other white space than blanks and TABs belongs to the line
+	"\f##!> assemble", "\u00a0##!+ i", "\v##!>define  n  v", " \ffoo",
 }
 
 // troublemakers of C10: comments that look like directives, odd arguments, glued keywords, upper-case / unsupported flags
